@@ -150,6 +150,15 @@ fn scripts_for(prop: &str, tier: Tier) -> Vec<(String, Vec<Action>)> {
         RefValue::Enum(2, Box::new(RefValue::Map(KeyType::Uuid, vec![(RefKey::Uuid([7; 16]), RefValue::Set(KeyType::I16, vec![RefKey::I16(-300)]))]))),
         RefValue::Some(Box::new(RefValue::Struct(vec![]))),
         RefValue::U64(1 << 40),
+        // at the legal maximum nesting depth, with a vec, a map and a struct among the ancestors of
+        // the deepest value (converting for an older peer must not count a level twice)
+        {
+            let mut v = RefValue::Vec(vec![RefValue::Map(KeyType::U8, vec![(RefKey::U8(1), RefValue::Struct(vec![(1, RefValue::U32(7))]))])]);
+            while v.height() < 32 {
+                v = RefValue::Some(Box::new(v));
+            }
+            v
+        },
     ];
     let versions: Vec<u32> = if tier == Tier::Thorough { (14..=20).collect() } else { vec![14, 16, 17, 19, 20] };
     for a in &versions {
